@@ -36,6 +36,7 @@ type Analysis struct {
 	P              *load.Prog
 	R              *oblig.Report
 	Funcs          []*ssa.Function
+	invHelpers     map[string]map[*ssa.Function]bool
 	globalMemo     map[*ssa.Global]bool
 	inSet          map[*ssa.Function]bool
 	Obls           []*Obligation
@@ -67,6 +68,67 @@ type Invariant struct {
 	// Typed form (Value empty): the value has a static type whose name ends in Type and, when PathSuffix
 	// is set, an access path X+PathSuffix; RequiresBase is a condition template over X ("%s").
 	Type, PathSuffix, RequiresBase string
+}
+
+// invariantIn: a typed invariant is a fact about a data structure as the named function handles it; it holds as
+// well in the unexported helpers of the same package that only that function (transitively) calls — code that was
+// cut out of it.
+func (a *Analysis) invariantIn(inv Invariant, f *ssa.Function) bool {
+	if inv.Func == load.FuncName(f) {
+		return true
+	}
+	if inv.Value != "" || f == nil || f.Pkg == nil || f.Parent() != nil || token.IsExported(f.Name()) {
+		return false
+	}
+	if a.invHelpers == nil {
+		a.invHelpers = map[string]map[*ssa.Function]bool{}
+	}
+	set, ok := a.invHelpers[inv.Func]
+	if !ok {
+		set = map[*ssa.Function]bool{}
+		a.invHelpers[inv.Func] = set
+		var root *ssa.Function
+		for g := range a.inSet {
+			if load.FuncName(g) == inv.Func {
+				root = g
+			}
+		}
+		if root != nil {
+			// unexported functions of the package reached from root by static calls …
+			reach := map[*ssa.Function]bool{root: true}
+			work := []*ssa.Function{root}
+			for len(work) > 0 {
+				g := work[len(work)-1]
+				work = work[:len(work)-1]
+				for _, b := range g.Blocks {
+					for _, in := range b.Instrs {
+						if ci, isCall := in.(ssa.CallInstruction); isCall {
+							if c := ci.Common().StaticCallee(); c != nil && c.Pkg == root.Pkg && !reach[c] && len(c.Blocks) > 0 && !token.IsExported(c.Name()) && c.Parent() == nil {
+								reach[c] = true
+								work = append(work, c)
+							}
+						}
+					}
+				}
+			}
+			// … and called from nowhere else
+			for h := range reach {
+				if h == root {
+					continue
+				}
+				only := true
+				for _, site := range a.callers[h] {
+					if !reach[site.Parent()] {
+						only = false
+					}
+				}
+				if only && len(a.callers[h]) > 0 {
+					set[h] = true
+				}
+			}
+		}
+	}
+	return set[f]
 }
 
 // Exception is a reviewed residual obligation.
@@ -354,7 +416,7 @@ func (a *Analysis) nonNil0(v ssa.Value, at ssa.Instruction, depth int) (bool, st
 			name = phi.Comment
 		}
 		for _, inv := range a.Invariants {
-			if inv.Value == "" && inv.Func == load.FuncName(at.Parent()) && strings.HasSuffix(v.Type().String(), inv.Type) {
+			if inv.Value == "" && a.invariantIn(inv, at.Parent()) && strings.HasSuffix(v.Type().String(), inv.Type) {
 				sp := stablePath(name)
 				if inv.PathSuffix != "" && !strings.HasSuffix(sp, inv.PathSuffix) {
 					continue
@@ -709,7 +771,7 @@ func (a *Analysis) pathNonNilAt(path string, typ types.Type, isLoad bool, at ssa
 	// (b) reviewed typed invariants
 	sp := stablePath(path)
 	for _, inv := range a.Invariants {
-		if inv.Value != "" || inv.Func != load.FuncName(f) || !strings.HasSuffix(typ.String(), inv.Type) {
+		if inv.Value != "" || !a.invariantIn(inv, f) || !strings.HasSuffix(typ.String(), inv.Type) {
 			continue
 		}
 		if inv.PathSuffix != "" && !strings.HasSuffix(sp, inv.PathSuffix) {
